@@ -35,8 +35,10 @@ BOUNDS = {
 }
 
 TERMS = ['x', '+x', '-x', 'y', '-y', '2', '-2.5', 'x*y', '-x*y', 'x/y', '(x)', '(-x)', '-(x)', '-(-x)',
-         '-(x*y)', ' ( x ) ', '2*x', '-y*x', 'y/x', 'x/2', '-2/x']
-BLOBS = ['x', '-x', 'x+y', 'x-y', '2*x', 'x*y', '(x+y)*2', '0.', '', 'y', '-2.5', 'x/y']
+         '-(x*y)', ' ( x ) ', '2*x', '-y*x', 'y/x', 'x/2', '-2/x',
+         '0.1234567', '-100000.25']        # constants with more significant digits than a %g keeps
+BLOBS = ['x', '-x', 'x+y', 'x-y', '2*x', 'x*y', '(x+y)*2', '0.', '', 'y', '-2.5', 'x/y',
+         '(x+y)*(x-y)', '(x-y)', '1234567.25']     # opaque expressions that start AND end with a bracket; a long constant
 LEADS = ([('none', None), ('emptylist', None)] + [('blob', b) for b in BLOBS]
          + [('strrhs', b) for b in BLOBS if b != ''] + [('lhs_eq', b) for b in BLOBS if b != ''])
 LIST_ELEMS = ['x', '+x', '-x', ' - y', '2*x', 'x*y', '1e+3*x', '+1e+3', '(x+y)', 'x+y', '-(x)', ' y ']
